@@ -98,6 +98,10 @@ class ScopeGen(object):
         if k < 0.8:
             self.features.add('makeatletter' if not self.atletter[-1] else 'makeatother')
             if self.atletter[-1]:
+                if r.random() < 0.3:
+                    # \makeatletter once more while @ is a letter already (no change); the next \makeatother still makes it 'other'
+                    self.features.add('makeatletter-twice')
+                    return '\\makeatletter '
                 self.atletter[-1] = False
                 return '\\makeatother '
             self.atletter[-1] = True
@@ -180,7 +184,8 @@ class ScopeGen(object):
                     self.vis.pop()
                     self.atletter.pop()
                 rows.append(' & '.join(cells))
-            s = '\\begin{tabular}{cc}' + ' \\\\ '.join(rows) + '\\end{tabular}'
+            # (the category probe is the very first token of the second row, directly after the \\ that closed the last cell of the first)
+            s = '\\begin{tabular}{cc}' + ' \\\\\\zq@p '.join(rows) + '\\end{tabular}'
             after = self.probe()
             return s + after
         else:
